@@ -44,6 +44,8 @@ def _is_array(x, cls):
 
 def match(x, L, ctx, mode="full", leafkey=None):
     k = L[0]
+    if k == "narr":  # an annotation extended by nesting == the flat annotation "outer inner"
+        return match(x, ["arr", (L[1] + " " + L[2]).strip()], ctx, mode, leafkey)
     if k == "any":
         return True, ctx
     if k == "int":
@@ -114,6 +116,8 @@ def match(x, L, ctx, mode="full", leafkey=None):
 
 
 def has_treepath(L):
+    if L[0] == "narr":
+        return has_treepath(["arr", L[1] + " " + L[2]])
     if L[0] == "arr":
         st, axes = rdims.parse(L[1])
         return any(len(a) > 3 and a[3] for a in axes)
